@@ -51,7 +51,9 @@ CLIS = [
 INJECT = ["all", "all", "half", "all", "all", "half", "none"]
 
 # clauses of Trace_UnsatCache that are verdicts about the cache / about the fidelity of the model
-VIOLATION_CLAUSES = {"core-id-rebound", "hit-on-sat-query", "hit-truth-not-unsat", "hit-without-core", "core-not-subset",
+# ("malformed-query": a query whose named ids do not cover its constraints one to one - a core of such a query can leave out
+#  a constraint its unsatisfiability needs, and then answers satisfiable queries)
+VIOLATION_CLAUSES = {"malformed-query", "core-id-rebound", "hit-on-sat-query", "hit-truth-not-unsat", "hit-without-core", "core-not-subset",
                      "core-not-unsat", "core-empty", "cores-survive-test"}
 PIN_CLAUSES = {"pinned-id-rebound", "pinned-object-duplicated"}
 
